@@ -13,6 +13,7 @@ growth law inside it are the definitions REGENERATED from the source (Gen/C14Nuc
 -/
 import KawinV.Model.KWNFull
 import KawinV.Props.C01
+import KawinV.Props.C02
 import KawinV.Props.C03
 import KawinV.Props.C05
 import KawinV.Props.C07
@@ -3096,6 +3097,141 @@ theorem reset_forgets_multi (c : Cfg α) (sA sB : St α) (a : EvalAns α) (eq : 
   unfold runFromSetup
   rw [reset_forgets_multi_setup c sA sB a eq hb hcfg]
   exact runSteps_setLook c hb (lookOf sA) tf dtminS steps _ dtmaxS
+
+/-! ### C02's budget clause on the composed step: the number density changes by nucleation and through the two ends only
+
+`advanceStage` is `X_old + correctdXdt·dt` of one phase.  Interior exchange telescopes away, so the total number after the
+update is the total before plus (nucleation rate + what crosses the two ends) × dt — and with non-negative populations and a
+consistent grid the end terms can only REMOVE particles, whatever the growth field, the limiter and the step are.  Hence with
+zero nucleation rate the density handed to `postProcess` never exceeds the one the step started from. -/
+
+open Finset in
+theorem advanceStage_sum (ps : PhaseSt α) (xF xL xB : List α) (yp : PSlice α) (dt : α)
+    (hlen : xB.length = ps.grid.bins) (hk : nucIdxOf ps yp.Rnuc < ps.grid.bins) :
+    (advanceStage ps xF xL xB yp dt).sum =
+      xB.sum + (PBM.correctedFlux ps.grid.bins dt (fn xL) (faceFlux ps xF) 0
+                - PBM.correctedFlux ps.grid.bins dt (fn xL) (faceFlux ps xF) ps.grid.bins + yp.nucRate) * dt := by
+  unfold advanceStage
+  simp only
+  rw [C02.sum_map_range, Finset.sum_add_distrib, ← Finset.sum_mul, hlen,
+    C07.budget ps.grid.bins _ (nucIdxOf ps yp.Rnuc) hk yp.nucRate, C02.list_sum_eq_range xB, hlen]
+  rfl
+
+theorem faceFlux_zero_nonpos (ps : PhaseSt α) (x : List α) (hx : ∀ v ∈ x, 0 ≤ v)
+    (hw : 0 ≤ fn (Grid.widths ps.grid.bounds) 0) : faceFlux ps x 0 ≤ 0 := by
+  unfold faceFlux PBM.netFlux
+  simp only [show ¬ (1 ≤ 0) by omega, false_and, if_false, add_zero]
+  split
+  · next h =>
+    exact div_nonpos_of_nonpos_of_nonneg (mul_nonpos_of_nonpos_of_nonneg (not_lt.mp h.2) (fn_nonneg x hx 0)) hw
+  · exact le_refl _
+
+theorem faceFlux_last_nonneg (ps : PhaseSt α) (x : List α) (hx : ∀ v ∈ x, 0 ≤ v)
+    (hw : 0 ≤ fn (Grid.widths ps.grid.bounds) (ps.grid.bins - 1)) : 0 ≤ faceFlux ps x ps.grid.bins := by
+  unfold faceFlux PBM.netFlux
+  simp only [Nat.lt_irrefl, false_and, if_false, zero_add]
+  split
+  · next h => exact div_nonneg (mul_nonneg h.2.le (fn_nonneg x hx _)) hw
+  · exact le_refl _
+
+/-- every class width of a consistent grid is non-negative (positive inside the grid, 0 read beyond it) -/
+theorem widths_fn_nonneg (g : Grid.State α) (h : GridGood g) (i : Nat) : 0 ≤ fn (Grid.widths g.bounds) i := by
+  unfold fn
+  rw [List.getD_eq_getElem?_getD]
+  cases hi : (Grid.widths g.bounds)[i]? with
+  | none => simp
+  | some w =>
+    simp only [Option.getD_some]
+    have hinv := C08.inv_spec g h.1
+    have hmem : w ∈ Grid.widths g.bounds := List.mem_of_getElem? hi
+    unfold Grid.widths at hmem
+    rw [List.mem_iff_getElem?] at hmem
+    obtain ⟨j, hj⟩ := hmem
+    rw [List.getElem?_zipWith] at hj
+    cases ha : g.bounds[j]? with
+    | none => simp [ha] at hj
+    | some a =>
+      cases hb : g.bounds.tail[j]? with
+      | none => simp [ha, hb] at hj
+      | some b =>
+        simp only [ha, hb, Option.map_some, Option.some.injEq] at hj
+        have hb' : g.bounds[j+1]? = some b := by rw [← List.getElem?_tail]; exact hb
+        have := hinv.2.2.2.2.2.2.1 j (j+1) a b (by omega) ha hb'
+        rw [← hj]; linarith
+
+/-- **the budget of one stage**: total after ≤ total before + nucleation rate × step, for every growth field, limiter
+reference and step — the ends only remove -/
+theorem advanceStage_sum_le (ps : PhaseSt α) (xF xL xB : List α) (yp : PSlice α) (dt : α) (hg : GridGood ps.grid)
+    (hdt : 0 < dt) (hF : ∀ v ∈ xF, 0 ≤ v) (hL : ∀ v ∈ xL, 0 ≤ v)
+    (hlen : xB.length = ps.grid.bins) (hk : nucIdxOf ps yp.Rnuc < ps.grid.bins) :
+    (advanceStage ps xF xL xB yp dt).sum ≤ xB.sum + yp.nucRate * dt := by
+  rw [advanceStage_sum ps xF xL xB yp dt hlen hk]
+  have h0 := C07.corrected_zero_nonpos ps.grid.bins dt (fn xL) (faceFlux ps xF) hdt (fn_nonneg xL hL)
+    (faceFlux_zero_nonpos ps xF hF (widths_fn_nonneg ps.grid hg 0))
+  have hn := C07.corrected_last_nonneg ps.grid.bins dt (fn xL) (faceFlux ps xF) hdt (fn_nonneg xL hL)
+    (faceFlux_last_nonneg ps xF hF (widths_fn_nonneg ps.grid hg _))
+  nlinarith [mul_nonneg hn hdt.le, mul_nonpos_of_nonpos_of_nonneg h0 hdt.le]
+
+/-- with no nucleation the number of particles handed on never exceeds the number the stage started from -/
+theorem advanceStage_no_nucleation (ps : PhaseSt α) (xF xL xB : List α) (yp : PSlice α) (dt : α) (hg : GridGood ps.grid)
+    (hdt : 0 < dt) (hF : ∀ v ∈ xF, 0 ≤ v) (hL : ∀ v ∈ xL, 0 ≤ v)
+    (hlen : xB.length = ps.grid.bins) (hk : nucIdxOf ps yp.Rnuc < ps.grid.bins) (hr : yp.nucRate = 0) :
+    (advanceStage ps xF xL xB yp dt).sum ≤ xB.sum := by
+  have := advanceStage_sum_le ps xF xL xB yp dt hg hdt hF hL hlen hk
+  rw [hr, zero_mul, add_zero] at this
+  exact this
+
+
+theorem argmaxFirst_lt (p : Nat → Bool) (len : Nat) (hl : 0 < len) : PBM.argmaxFirst p len < len := by
+  unfold PBM.argmaxFirst
+  split
+  · next i hi =>
+    have := List.mem_of_find?_eq_some hi
+    rw [List.mem_range] at this
+    exact this
+  · exact hl
+
+/-- the class the code puts the nuclei into is a class of the grid, for every radius -/
+theorem nucIndex_lt (n : Nat) (b : Nat → α) (r : α) (hn : 1 ≤ n) : PBM.nucIndex n b r < n := by
+  unfold PBM.nucIndex
+  split
+  · omega
+  · simp only
+    have hle := argmaxFirst_lt (fun i => decide (r < b i)) (n+1) (by omega)
+    generalize PBM.argmaxFirst (fun i => decide (r < b i)) (n+1) = a at hle ⊢
+    split <;> omega
+
+/-- **C02's budget clause for an accepted Euler step of the composed model**: for every phase, the number of particles in the
+state handed to `postProcess` is at most the number in the (processed) state the step started from plus the recorded nucleation
+rate times the accepted step — for every configuration, growth field and backend; with zero nucleation rate it never increases -/
+theorem eulerStep_density_budget (c : Cfg α) (s : St α) (tf dtminS dtmaxS : α) (aPost : EvalAns α) (upd : List (UpdAns α))
+    (o : StepOut α) (h : eulerStep c s tf dtminS dtmaxS aPost upd = some o) (hs : StReady c s) (hdt : 0 < o.dt)
+    (i : Nat) (ps : PhaseSt α) (hi : s.ph[i]? = some ps) :
+    ∃ xN xE yp, o.xNew[i]? = some xN ∧ (entryX c s)[i]? = some xE ∧ (s.cur c.nElem).ph[i]? = some yp ∧
+      xN.sum ≤ xE.sum + yp.nucRate * o.dt := by
+  obtain ⟨hc, hcur, hq⟩ := hs
+  have hgood : GridGood ps.grid := (hq ps (List.mem_of_getElem? hi)).1
+  have hinv := C08.inv_spec ps.grid hgood.1
+  have hil : i < s.ph.length := (List.getElem?_eq_some_iff.mp hi).1
+  have hY : (s.cur c.nElem).ph[i]? = some (s.cur c.nElem).ph[i] := List.getElem?_eq_getElem (by rw [hcur]; exact hil)
+  have hE := entryX_getElem c s i ps hi
+  -- the step output
+  have ho : o.xNew = advanced c s (acceptedDt c s tf dtminS dtmaxS) ∧ o.dt = acceptedDt c s tf dtminS dtmaxS := by
+    unfold eulerStep at h
+    simp only at h
+    split at h
+    · simp at h
+    · simp only [Option.some.injEq] at h; subst h; exact ⟨rfl, rfl⟩
+  set xE := PSD.processX ps.rdfIdx c.minRadius ps.grid.psd ps.grid.size with hxE
+  have hxEnn : ∀ v ∈ xE, 0 ≤ v := processX_nonneg _ _ _ _ hinv.2.2.2.2.2.2.2.2
+  have hxElen : xE.length = ps.grid.bins := by
+    rw [hxE, processX_len, hinv.2.1, hinv.2.2.2.1]; simp
+  refine ⟨advanceStage ps xE ps.grid.psd xE (s.cur c.nElem).ph[i] o.dt, xE, (s.cur c.nElem).ph[i], ?_, hE, hY, ?_⟩
+  · rw [ho.1, ho.2]
+    simp only [advanced, stageX, List.getElem?_map, zip3_getElem?, hi, hE, hY, Option.map_some]
+  · exact advanceStage_sum_le ps xE ps.grid.psd xE _ o.dt hgood hdt hxEnn hinv.2.2.2.2.2.2.2.2 hxElen
+      (nucIndex_lt _ _ _ hinv.1)
+
 
 /-! ### non-vacuity
 
